@@ -9,6 +9,8 @@
  */
 #include <stdlib.h>
 #include <errno.h>
+#include <fcntl.h>
+#include <unistd.h>
 #include <sys/uio.h>
 
 #include "queue.h"
@@ -22,18 +24,35 @@ typedef struct { uint8_t d[MCAP]; size_t n; } model;
 enum {
 	OpPush, OpPushZero, OpPop, OpPopNull, OpShift, OpShiftNull, OpUnshift,
 	OpPost, OpPre, OpCrop, OpGet, OpSet, OpSetZero, OpData, OpEmpty, OpFind,
-	OpAlign, OpResize, OpPrepare, OpString, OpCount
+	OpAlign, OpResize, OpPrepare, OpString, OpLoad, OpSave, OpCount
 };
 static const char *opname[OpCount] = {
 	"qpush", "qpush0", "qpop", "qpopnull", "qshift", "qshiftnull", "qunshift",
 	"qpost", "qpre", "queue_crop", "queue_get", "queue_set", "queue_set0", "queue_data", "queue_empty", "queue_find",
-	"queue_align", "queue_resize", "queue_prepare", "queue_string"
+	"queue_align", "queue_resize", "queue_prepare", "queue_string", "queue_load", "queue_save"
 };
 static const char *apiname[OpCount] = {
 	"mpt_qpush", "mpt_qpush", "mpt_qpop", "mpt_qpop", "mpt_qshift", "mpt_qshift", "mpt_qunshift",
 	"mpt_qpost", "mpt_qpre", "mpt_queue_crop", "mpt_queue_get", "mpt_queue_set", "mpt_queue_set", "mpt_queue_data",
-	"mpt_queue_empty", "mpt_queue_find", "mpt_queue_align", "mpt_queue_resize", "mpt_queue_prepare", "mpt_queue_string"
+	"mpt_queue_empty", "mpt_queue_find", "mpt_queue_align", "mpt_queue_resize", "mpt_queue_prepare", "mpt_queue_string",
+	"mpt_queue_load", "mpt_queue_save"
 };
+/* descriptor pair for load/save: a non-blocking pipe owned by the harness */
+static int pfd[2] = { -1, -1 };
+static void pipe_init(void)
+{
+	if (pfd[0] >= 0) return;
+	if (pipe(pfd) < 0) vf_inconclusive("pipe() failed");
+	fcntl(pfd[0], F_SETFL, O_NONBLOCK);
+	fcntl(pfd[1], F_SETFL, O_NONBLOCK);
+}
+static size_t pipe_drain(uint8_t *dst, size_t max)
+{
+	size_t n = 0;
+	ssize_t r;
+	while (n < max && (r = read(pfd[0], dst + n, max - n)) > 0) n += (size_t) r;
+	return n;
+}
 static char keybuf[128];
 static const char *key(int op, const char *what)
 {
@@ -331,6 +350,49 @@ static int apply(int op, MPT_STRUCT(queue) *q, model *m, size_t a, size_t b)
 		VF_CHECK(left == q->max - q->len, key(op, "return"), "%s: returned %zu, free is %zu", ctx, left, q->max - q->len);
 		accepted = 1;
 		break; }
+	case OpLoad: {
+		/* a = size limit (0: all that fits), b = bytes waiting on the descriptor */
+		static uint8_t src[MCAP], rest[MCAP];
+		if (b > 4096) b = 4096;
+		pipe_init();
+		fresh_bytes(src, b);
+		if (b && write(pfd[1], src, b) != (ssize_t) b) vf_inconclusive("pipe write failed");
+		size_t want = nfree;
+		if (a && a < want) want = a;
+		if (b < want) want = b;
+		if (a && a < nfree) vf_count("state:load-with-limit-below-free-space", 1);
+		ssize_t got = mpt_queue_load(q, pfd[0], a);
+		if (!want) {
+			VF_CHECK(got <= 0, key(op, "return"), "%s: returned %zd with %zu free and %zu waiting", ctx, got, nfree, b);
+		} else {
+			VF_CHECK(got == (ssize_t) want, key(op, "return"), "%s: returned %zd, expected %zu (free %zu, waiting %zu)", ctx, got, want, nfree, b);
+			memcpy(m->d + m->n, src, want);
+			m->n += want;
+			accepted = 1;
+		}
+		/* the descriptor continues behind the loaded bytes */
+		size_t left = pipe_drain(rest, sizeof(rest));
+		VF_CHECK(left == b - want && !memcmp(rest, src + want, left), key(op, "descriptor-position"),
+		         "%s: %zu bytes left on the descriptor, expected %zu", ctx, left, b - want);
+		break; }
+	case OpSave: {
+		static uint8_t out2[MCAP];
+		pipe_init();
+		if (q->len > 60000) break;
+		ssize_t put = mpt_queue_save(q, pfd[1]);
+		size_t had = m->n;
+		size_t left = pipe_drain(out2, sizeof(out2));
+		if (!had) {
+			VF_CHECK(put <= 0 && !left, key(op, "return"), "%s: returned %zd for an empty queue, %zu bytes written", ctx, put, left);
+			break;
+		}
+		VF_CHECK(put > 0 && (size_t) put <= had, key(op, "return"), "%s: returned %zd with %zu bytes queued", ctx, put, had);
+		VF_CHECK(left == (size_t) put && !memcmp(out2, m->d, left), key(op, "written-data"), "%s: %zu bytes written, returned %zd: %s expected %s", ctx, left, put,
+		         vf_hex(hx1, sizeof(hx1), out2, left), vf_hex(hx2, sizeof(hx2), m->d, (size_t) put));
+		memmove(m->d, m->d + put, had - (size_t) put);
+		m->n = had - (size_t) put;
+		accepted = 1;
+		break; }
 	case OpString: {
 		char *s = mpt_queue_string(q);
 		if (!nfree) {
@@ -396,8 +458,12 @@ static void case_exhaustive(uint64_t idx)
 		for (size_t a = 1; a <= 4; a++)
 			for (size_t b = 0; b <= len; b++) run_fresh(op, max, off, len, a, b);
 		break;
-	case OpData: case OpEmpty: case OpString:
+	case OpData: case OpEmpty: case OpString: case OpSave:
 		run_fresh(op, max, off, len, 0, 0);
+		break;
+	case OpLoad:
+		for (size_t a = 0; a <= max + 1; a++)
+			for (size_t b = 0; b <= max + 2; b++) run_fresh(op, max, off, len, a, b);
 		break;
 	case OpResize: case OpPrepare:
 		for (size_t a = 0; a <= 2 * max + 9; a++) run_fresh(op, max, off, len, a, 0);
@@ -453,6 +519,10 @@ static void case_history(uint64_t idx, vf_rng *r)
 		case OpAlign:
 			a = vf_below(r, (uint32_t) q.max + 2);
 			break;
+		case OpLoad:
+			a = vf_chance(r, 1, 3) ? 0 : pick_len(r, &q);
+			b = vf_chance(r, 1, 2) ? pick_len(r, &q) : vf_below(r, (uint32_t) q.max + 40);
+			break;
 		case OpResize:
 			a = vf_chance(r, 1, 6) ? 0 : vf_below(r, (uint32_t) (2 * q.max + 9));
 			if (a > 8000) a = 8000;
@@ -467,6 +537,7 @@ static void case_history(uint64_t idx, vf_rng *r)
 		if (!q.max && op != OpResize && op != OpPrepare) { op = OpPrepare; a = 1 + vf_below(r, 40); b = 0; }
 		int acc = apply(op, &q, &m, a, b);
 		if (acc && op != OpGet && op != OpData && op != OpEmpty && op != OpFind) mutating++;
+		if (acc && (op == OpLoad || op == OpSave) && q.max && (q.max - q.len) < q.off) vf_count("state:load-save-on-wrapped", 1);
 		if (q.max && q.len && (q.max - q.len) < q.off) wrapped = 1;
 		vf_fp_u64(((uint64_t) op << 48) ^ (a << 20) ^ b);
 		if (dl + 40 < sizeof(desc)) dl += snprintf(desc + dl, sizeof(desc) - dl, " %s(%zu,%zu)%s", opname[op], a, b, acc ? "" : "!");
